@@ -5,6 +5,7 @@
 import json, os, re, subprocess, sys, concurrent.futures as cf
 SEEDED = "/verif/seeded"
 EXTRA = {  # checks tried after the change's own property (first round: from the table in DESIGN.md 14)
+ "C04-r8m1": ["C07"], "C04-r8m2": ["C10"], "C07-r8m1": ["C10"], "C07-r8m2": ["C10"], "C08-r8m1": ["C10"], "C12-r8m1": ["C08"], "C12-r8m2": ["C08"], "C18-r8m1": ["C07"],
  "C01-r8m1": ["C10", "C12"], "C01-r8m2": ["C08"], "C02-r8m1": ["C08"], "C06-r8m2": ["C08"], "C09-r8m1": ["C07"], "C10-r8m1": ["C07"], "C10-r8m2": ["C08"], "C11-r8m1": ["C07", "C09"], "C11-r8m2": ["C07"],
  "C13-r8m1": ["C10"], "C13-r8m2": ["C10"], "C14-r8m2": ["C18", "C16", "C05"], "C15-r8m1": ["C07"], "C16-r8m1": ["C11", "C18"], "C16-r8m2": ["C09"], "C19-r8m2": ["C17"], "C20-r8m1": ["C07"], "C05-r8m1": ["C07"],
  "C02-r7m1": ["C01", "C08"], "C02-r7m2": ["C12"], "C03-r7m2": ["C06", "C04"], "C04-r7m2": ["C14", "C05"], "C06-r7m1": ["C14"], "C08-r7m1": ["C10"], "C09-r7m1": ["C13"], "C11-r7m1": ["C07", "C08"], "C11-r7m2": ["C07"],
